@@ -22,6 +22,12 @@ TOL = 2e-6  # gains come from a Gram-matrix solve: observed noise up to 3e-7 on 
 
 
 def cases(tier):
+    # mostly a generous sweep budget; sometimes 1-5 sweeps: what is claimed "when it reports convergence" must also hold
+    # where convergence should not be reported
+    return st.tuples(_mdp_cases(tier), st.sampled_from([300, 300, 300, 300, 1, 2, 3, 5])).map(lambda t: dict(t[0], mpi_budget=t[1]))
+
+
+def _mdp_cases(tier):
     big = tier == "thorough"
     mx = 6 if big else 5
     return st.one_of(
@@ -43,7 +49,18 @@ def prop_mpi(spec, ctx):
     mdp, view = build_mdp(spec)
     ref = RefMDP(spec)
     n, m = ref.n, ref.m
-    res = ctx.call("C16.plan_raises", MultichainPolicyIteration(max_iterations=300).plan_on, mdp)
+    budget = spec.get("mpi_budget", 300)
+    if budget < 300:
+        ctx.event("tiny_sweep_budget")
+        # the statement speaks about runs that report convergence; a run whose budget runs out may - and on this code
+        # base sometimes does - end in an exception instead of converged=False (DESIGN.md 5.4): counted, not asserted
+        try:
+            res = MultichainPolicyIteration(max_iterations=budget).plan_on(mdp)
+        except Exception as e:
+            ctx.event("tiny_sweep_budget_run_raised_" + type(e).__name__)
+            return
+    else:
+        res = ctx.call("C16.plan_raises", MultichainPolicyIteration(max_iterations=budget).plan_on, mdp)
     states = [view.sidx[s] for s in mdp.state_list]
     # reported expectations
     ig = sum(float(res.state_gain[view.S[s]]) * p for s, p in view.p0 if p > 0)
